@@ -32,6 +32,18 @@ def make_cases(rng, tier, budget):
         if rng.random() < 0.4:
             c["history"].append(["clean", None])
         out.append(c)
+    # a foreign file overwritten by a call that failed, its path then turned into a directory by a later
+    # call of the same build, and the build rolled back (or committed)
+    for i in range((6 if tier == "quick" else 40) * budget):
+        F = [rng.choice(gen.NAMES[:4]) + "F"]
+        mode = rng.choice([[["write", ["lit", "new"]], ["raise", 1]], [["raise", 2]], [["write", ["lit", "new"]], ["ret", ["lit", 1]]]])
+        funcs = {"over": {"*": mode}, "w": {"*": [["write", ["lit", "x"]], ["ret", ["lit", 0]]]}}
+        end = rng.choice([[["raise", 9]], [["ret", ["lit", 0]]]])
+        root = [["build_file", "a", F, "METADATA", "over", [], {}], ["build_file", "b", F + ["x"], "METADATA", "w", [], {}]] + end
+        hist = [["mutate", [["write", F, "foreign"], ["write", ["neighbour"], "N"]]], ["build", {}, root]]
+        if rng.random() < 0.5:
+            hist.append(["build", {}, [["ret", ["lit", 0]]]])
+        out.append({"cache": ["cache"], "name": "n", "funcs": funcs, "history": hist})
     return out
 
 
